@@ -45,6 +45,14 @@ pub fn judge_value(ctx: &Ctx, case: &Value) -> Result<(), Fail> {
         let c: props::frontends::PySeq = serde_json::from_value(c.clone()).map_err(bad)?;
         return props::frontends::replay_py(ctx, &c);
     }
+    if let Some(v) = case.get("c14_long_lived") {
+        return props::lib_level::replay_c14_long_lived(ctx, v);
+    }
+    if case.get("cli_many_faults").is_some() {
+        let cli = props::frontends::build_cli(ctx).map_err(|e| Fail::new("harness:build", e))?;
+        let mut st = crate::runner::Stats::default();
+        return props::frontends::check_cli_many_faults(ctx, &cli, &mut st);
+    }
     if case.get("py_seed_probe").is_some() {
         let pkg = props::frontends::build_python(ctx).map_err(|e| Fail::new("harness:build", e))?;
         let mut st = crate::runner::Stats::default();
@@ -101,6 +109,11 @@ pub fn judge_value(ctx: &Ctx, case: &Value) -> Result<(), Fail> {
             }
         }
         "C16" => {
+            if case.get("protocol").is_some() {
+                // a whole generation (the generator-level part)
+                let c: GenCase = serde_json::from_value(case.clone()).map_err(bad)?;
+                return props::direct::check_c16_gen(ctx, &c, &mut st);
+            }
             let c: props::direct::Call = serde_json::from_value(case.clone()).map_err(bad)?;
             props::direct::check_c16(ctx, &c, &mut st)
         }
